@@ -237,7 +237,7 @@ theorem appendAny_eq {P : Params} (hP : P.valid = true) (S : Schema) (hS : S.ok 
         | some sd => simpa using hS sd (List.mem_of_getElem? hg)
       simp only [SDesc.ok, List.all_eq_true] at hsd
       simp only [appendAny, refEnc]
-      rw [appendFields_eq hP S hS fs (S.get sid) (S.get sid).fields (fun f hf => by have := hsd f hf; simp only [Field.ok, Bool.and_eq_true] at this; exact this.1.1) ht.2]
+      rw [appendFields_eq hP S hS fs (S.get sid) (S.get sid).fields (fun f hf => by have := hsd f hf; simp only [Field.ok, Bool.and_eq_true] at this; exact this.1.1.1) ht.2]
       rcases ht.1 with hh | hh
       · simp [hh]
       · have : h = [] := by simpa using hh
